@@ -22,6 +22,13 @@ class Keys:
                 i, j = rng.sample(range(nk), 2); lst, src = rng.choice(((self.on_sk, self.on_sk), (self.off_sk, self.off_sk), (self.on_sk, self.off_sk), (self.off_sk, self.on_sk)))
                 lst[j] = src[i] if rng.random() < 0.4 else n - src[i]
             self.off_sk = [x if (x + self.w) % n else rng.randrange(1, n) for x in self.off_sk]
+        if nk >= 1 and rng.random() < 0.25:
+            # the additions offline_i + W and online_i + h*(offline_i + W) hit their doubling branch: offline_i = W, online_i = h*(offline_i + W)
+            j = rng.randrange(nk)
+            if rng.random() < 0.6: self.off_sk[j] = self.w
+            else:
+                Sj = (self.off_sk[j] + self.w) % n
+                if Sj: self.on_sk[j] = I(sha(ser33(mulG(Sj)))) * Sj % n or 1
         self.on = [mulG(x) for x in self.on_sk]; self.off = [mulG(x) for x in self.off_sk]; self.W = mulG(self.w)
         self.nk = nk; self.ctx = ctx; self.config = config
         self.on_obj = [self.obj(P) for P in self.on]; self.off_obj = [self.obj(P) for P in self.off]; self.W_obj = self.obj(self.W)
@@ -96,6 +103,7 @@ def wl_honest(ctx, config):
                 i = rng.randrange(len(sb) * 8 - 8) + 8; t = bytearray(sb); t[i // 8] ^= 1 << (i % 8); vcase(ctx, config, K, bytes(t), "mut:bitflip")
             elif kind == 1:
                 j = rng.randrange(nk); t = bytearray(sb); t[33 + 32 * j:65 + 32 * j] = b32(rng.choice((0, n, n + 1, 2**256 - 1))); vcase(ctx, config, K, bytes(t), "mut:scalar_zero_or_ge_n")
+                j = rng.randrange(nk); t = bytearray(sb); t[33 + 32 * j:65 + 32 * j] = b32((n - I(sb[33 + 32 * j:65 + 32 * j])) % n); vcase(ctx, config, K, bytes(t), "mut:scalar_negated")
             elif kind == 2:
                 vcase(ctx, config, K, sb + b'\x00', "mut:len+1"); vcase(ctx, config, K, sb[:-1], "mut:len-1")
             elif kind == 3:
